@@ -12,10 +12,10 @@ import (
 )
 
 type SolveResult struct {
-	Status  string  `json:"status"` // unsat sat unknown timeout error
-	Solver  string  `json:"solver"`
-	TimeS   float64 `json:"time_s"`
-	Model   string  `json:"model,omitempty"`
+	Status  string            `json:"status"` // unsat sat unknown timeout error
+	Solver  string            `json:"solver"`
+	TimeS   float64           `json:"time_s"`
+	Model   string            `json:"model,omitempty"`
 	Outputs map[string]string `json:"outputs,omitempty"`
 }
 
